@@ -309,7 +309,15 @@ def rewrite_expr_literal_type(r):
     p, op, args, env = _ctx(r)
     node = args[0]._impl._node
     # a data-typed literal replaced by an integer literal or an index expression
-    return isinstance(node, LoopIR.Const) and node.type.is_real_scalar() and (isinstance(args[1], int) or isinstance(args[1], str))
+    if isinstance(node, LoopIR.Const) and node.type.is_real_scalar() and (isinstance(args[1], int) or isinstance(args[1], str)):
+        return True
+    # the literal divisor of an index `/` or `%` replaced by something that is not a positive literal (only
+    # accepted where the context is unreachable or pins the value): the result is no longer quasi-affine
+    if isinstance(node, LoopIR.Const) and not node.type.is_real_scalar():
+        par = args[0]._impl.parent()._node
+        if isinstance(par, LoopIR.BinOp) and par.op in ("/", "%") and par.rhs is node:
+            return not (isinstance(args[1], int) and not isinstance(args[1], bool) and args[1] > 0)
+    return False
 
 
 def replace_infers_empty_window(r):
